@@ -120,17 +120,26 @@ Section Cases.
     else if String.eqb cmd "fsops" then
       (* the operation list of the writing callback for a text cut into pieces of the given lengths
          (bytes are abstract: each piece is represented by its length) *)
-      match args with
-      | [SS name; lens] =>
-        match dLof dN lens with
-        | Some ls =>
-          SL (map (fun o => match o with
+      let enc := map (fun o => match o with
                             | OpOpen p => SL [SY "open"; SS p]
                             | OpWrite p d => SL [SY "write"; SS p; SN (N.of_nat (List.length d))]
                             | OpClose p => SL [SY "close"; SS p]
                             | OpRename a b => SL [SY "rename"; SS a; SS b]
-                            end)
-                  (write_chkpt_ops unit name (map (fun n => repeat tt (N.to_nat n)) ls)))
+                            end) in
+      let pieces := map (fun n => repeat tt (N.to_nat n)) in
+      match args with
+      | [SS name; lens] =>
+        match dLof dN lens with
+        | Some ls => SL (enc (write_chkpt_ops unit name (pieces ls)))
+        | None => bad end
+      | [SS name; lens; SY how] =>
+        (* the same when a system call of the invocation fails: "openfails" (nothing happens), "incomplete" (a write, the
+           close or the rename failed after the given pieces reached the temporary), "completes" *)
+        match dLof dN lens with
+        | Some ls =>
+          SL (enc (invocation_ops unit name
+                     (if String.eqb how "openfails" then OpenFails
+                      else if String.eqb how "incomplete" then Incomplete (pieces ls) else Completes (pieces ls))))
         | None => bad end
       | _ => bad end
     else SL [SY "unknown_command"].
